@@ -43,6 +43,9 @@ def udiv(x, y): return T('udiv', (lift(x), lift(y)))
 def urem(x, y): return T('urem', (lift(x), lift(y)))
 def umul(x, y): return T('umul', (lift(x), lift(y)))
 def umulovf(x, y): return T('umulovf', (lift(x), lift(y)))
+def sdiv(x, y, bits): return T('sdiv', (lift(x), lift(y)), val=bits)      # signed (truncating) division on the two's-complement reading of `bits`-bit patterns
+def slt(x, y, bits): return T('slt', (lift(x), lift(y)), val=bits)
+def sle(x, y, bits): return T('sle', (lift(x), lift(y)), val=bits)
 def eq(x, y): return T('eq', (lift(x), lift(y)))
 def ne(x, y): return T('ne', (lift(x), lift(y)))
 def And(*xs): return T('and', xs)
@@ -67,6 +70,8 @@ SPEC_PREDS = {
     'issquare': (1, '∃ k : Nat, k * k = x0'),
     'powfits': (2, 'x0 ^ x1 < W'),
     'poweq': (5, 'x0 * x1 ^ x2 = x3 ^ x4'),
+    'sprodfits64': (2, '(-9223372036854775808 : Int) ≤ sval 64 x0 * sval 64 x1 ∧ sval 64 x0 * sval 64 x1 ≤ 9223372036854775807'),
+    'sprodfits32': (2, '(-2147483648 : Int) ≤ sval 32 x0 * sval 32 x1 ∧ sval 32 x0 * sval 32 x1 ≤ 2147483647'),
 }
 
 
@@ -96,6 +101,11 @@ def c_text(t, env):
     if o == 'umulovf':
         if is_const(a[0]) or is_const(a[1]): return '__CPROVER_overflow_mult((uint64_t)%s, (uint64_t)%s)' % (r(a[0]), r(a[1]))
         return 'LL2C_UMULOVF64(%s, %s)' % (r(a[0]), r(a[1]))
+    if o == 'sdiv':
+        assert not is_const(a[1])
+        return '((uint%d_t)LL2C_SDIV%d((int%d_t)%s, (int%d_t)%s))' % (t.val, t.val, t.val, r(a[0]), t.val, r(a[1]))
+    if o in ('slt', 'sle'):
+        return '((int%d_t)%s %s (int%d_t)%s)' % (t.val, r(a[0]), '<' if o == 'slt' else '<=', t.val, r(a[1]))
     if o == 'add': return '((uint64_t)((uint64_t)%s + (uint64_t)%s))' % (r(a[0]), r(a[1]))
     if o == 'sub': return '((uint64_t)((uint64_t)%s - (uint64_t)%s))' % (r(a[0]), r(a[1]))
     if o in ('lt', 'le', 'eq', 'ne'):
@@ -120,6 +130,8 @@ def lean_text(t):
     if o == 'urem': return '(%s %% %s)' % (r(a[0]), r(a[1]))
     if o == 'umul': return '(%s * %s %% W)' % (r(a[0]), r(a[1]))
     if o == 'umulovf': return '(W ≤ %s * %s)' % (r(a[0]), r(a[1]))
+    if o == 'sdiv': return '(enc %d (Int.tdiv (sval %d %s) (sval %d %s)))' % (t.val, t.val, r(a[0]), t.val, r(a[1]))
+    if o in ('slt', 'sle'): return '(sval %d %s %s sval %d %s)' % (t.val, r(a[0]), '<' if o == 'slt' else '≤', t.val, r(a[1]))
     if o == 'add': return '((%s + %s) %% W)' % (r(a[0]), r(a[1]))
     if o == 'sub': return '((%s + W - %s) %% W)' % (r(a[0]), r(a[1]))
     if o in ('lt', 'le', 'eq', 'ne'):
@@ -161,6 +173,9 @@ set_option maxHeartbeats 1000000
 
 /-- 2^64 -/
 def W : Nat := 18446744073709551616
+/-- two's-complement reading of a b-bit pattern, and the b-bit pattern of an integer -/
+def sval (b : Nat) (x : Nat) : Int := if x < 2 ^ (b - 1) then (x : Int) else (x : Int) - 2 ^ b
+def enc (b : Nat) (z : Int) : Nat := (z % 2 ^ b).toNat
 '''
 
 
